@@ -219,14 +219,23 @@ def _inline_success_sites(ctx: Ctx) -> None:
                    and c.func.attr in ('is_logical_error', 'in_codespace', 'is_success') for c in ast.walk(e))
     # the failure test: an `if` / conditional expression test, or a boolean assigned to a local first
     tests = []
-    for n in ast.walk(fn):
-        if isinstance(n, (ast.If, ast.IfExp, ast.While)) and _mentions(n.test):
-            tests.append((n, n.test))
-        elif isinstance(n, ast.Assign) and _mentions(n.value) and isinstance(n.value, (ast.BoolOp, ast.UnaryOp, ast.Call, ast.Compare)):
-            tests.append((n, n.value))
+    # get_next_error and the methods of the class it calls through self (the test may live in a helper)
+    bodies = [fn]
+    for c_ in ast.walk(fn):
+        if isinstance(c_, ast.Call) and isinstance(c_.func, ast.Attribute) and isinstance(c_.func.value, ast.Name) \
+                and c_.func.value.id == 'self' and c_.func.attr in ci.methods and ci.methods[c_.func.attr] not in bodies:
+            bodies.append(ci.methods[c_.func.attr])
+    for f_ in bodies:
+        for n in ast.walk(f_):
+            if isinstance(n, (ast.If, ast.IfExp, ast.While)) and _mentions(n.test):
+                tests.append((n, n.test, f_))
+            elif isinstance(n, (ast.Assign, ast.Return)) and n.value is not None and _mentions(n.value) \
+                    and isinstance(n.value, (ast.BoolOp, ast.UnaryOp, ast.Call, ast.Compare)) \
+                    and not (isinstance(n, ast.Return) and f_ is fn):
+                tests.append((n, n.value, f_))
     ctx.need(len(tests) >= 1, 'R04.1', site_of(mi, fn), 'failure test not found in get_next_error')
-    for n, test in tests:
-        table = _table_with_effect_terms(ctx, mi, fn, test, {})
+    for n, test, f_ in tests:
+        table = _table_with_effect_terms(ctx, mi, f_, test, {})
         ok = len(table) == 4 and all(v == (not (a and not b)) for (a, b), v in table.items())
         ctx.ob('R04.1', site_of(mi, n), 'SplittingSimulation.get_next_error: failure test truth table', ok,
                f'table (A,B) -> failed: {sorted(table.items())}; expected not (A and not B)',
